@@ -13,6 +13,7 @@ CONSTANTS
   Parts = {TRUE, FALSE}
   MaxCancel = 0
   MaxFault = 0
+  Zeros = FALSE
   Dev = {}
   Record = FALSE
 VIEW View
